@@ -181,7 +181,11 @@ def install(g, pid, *, text, note, technique, quick, thorough, mons=None, forces
         results = res.pop("_results")
         if extra_checks:
             for fn in extra_checks:
-                more = fn(ctx, results)
+                try:
+                    more = fn(ctx, results)
+                except Exception:       # one extra check falling over must not throw away what the others found
+                    import traceback
+                    more = {"disagreements": [{"what": f"extra check {getattr(fn, '__name__', fn)} crashed: " + traceback.format_exc().strip().splitlines()[-1][:300]}]}
                 res["violations"] += more.get("violations", [])
                 res["disagreements"] += more.get("disagreements", [])
                 res["evaluations"] += more.get("evaluations", 0)
